@@ -370,3 +370,8 @@ func (w *World) Destroy() {
 	w.Close()
 	_ = os.RemoveAll(w.Dir)
 }
+
+// Attach ties the lifetime of another world to w (closed/destroyed with it).
+func (w *World) Attach(o *World) {
+	w.closers = append(w.closers, func() { o.Destroy() })
+}
